@@ -28,6 +28,7 @@ CONSTANTS
   WPropose = 10
   WCommit = 25
   WApp = 50
+  LateBias = 3
   WStore = 10
 INVARIANT EmitAtDepth
 CHECK_DEADLOCK FALSE
